@@ -181,6 +181,15 @@ func isVoter(c raft.Configuration, id raft.ServerID) bool {
 func (o *Oracle) beforeStoreLogs(inc *Inc, ents []Ent) {
 	w := o.w
 	d := inc.node.disk
+	// nothing is ever written into the range a server's adopted snapshot covers: a leader appends
+	// at its last index + 1, which is at least the snapshot's, and a follower skips what its
+	// snapshot covers (an entry there would sit next to the snapshot with possibly other content)
+	if inc.r != nil && len(ents) > 0 && o.userRestoring[inc.node.idx] == 0 {
+		if si, _ := inc.r.VerifLastSnapshot(); si > 0 && ents[0].Index <= si {
+			w.violate("C04", "C04/entry-stored-inside-snapshot-range", "%s (%v) stores entry (%d, term %d) although its snapshot already covers everything up to %d",
+				inc.tag, inc.r.State(), ents[0].Index, ents[0].Term, si)
+		}
+	}
 	for _, e := range ents {
 		k := idxTerm{e.Index, e.Term}
 		if rec, ok := o.entries[k]; ok {
@@ -1014,6 +1023,9 @@ func (o *Oracle) onHandled(inc *Inc, m *Msg) {
 		}
 		if r, ok := m.Resp.(*raft.InstallSnapshotResponse); ok && r != nil && r.Success {
 			w.stats.probe("install_snapshot_success")
+			if w.cfg.Profile == "C04" && !w.quiet && !w.s2 && w.ch.Chance(simrt.SWork, 1, 3) {
+				w.cl.transferTo = inc.node // operation placed right after the install (clients.go loop)
+			}
 		}
 		o.onInstallHandled(m)
 	case "RV":
